@@ -203,7 +203,16 @@ fn run_rt<E: Extensions + PartialEq + std::panic::RefUnwindSafe>(
         Some(t) if write_toks(t) == bytes => {}
         _ => cx.out.oracle_fail(n, "cbor-not-canonical", "to_bytes() is not the shortest-form definite-length encoding of its own item heads", &req, &ans),
     }
-    let valid = validate_header(h).is_ok();
+    // "passes validation" judged from the property's statement, not by calling validate_header:
+    // honestly signed (real verify_strict over the real unsigned bytes), supported version,
+    // payload hash iff size > 0, backlink iff seq > 0
+    let valid = entry.is_some()
+        && h.version == 1
+        && (h.payload_hash.is_some() == (h.payload_size > 0))
+        && (h.backlink.is_some() == (h.seq_num > 0));
+    if valid != validate_header(h).is_ok() {
+        cx.out.oracle_fail(n, "validate-header-disagrees", &format!("validate_header says {:?} for a header that is {}valid by the property's definition", validate_header(h).err().map(|e| e.to_string()), if valid { "" } else { "in" }), &req, &ans);
+    }
     cx.out.count(if valid { "rt validated header" } else { "rt header failing validate_header" });
     if valid {
         let causal = if prev_len >= 2 { "-causal-order" } else { "" };
